@@ -3,10 +3,13 @@ package c11
 import (
 	"bytes"
 	"context"
+	"encoding/json"
+	"fmt"
 	"os"
 	"os/exec"
 	"path/filepath"
 	"strings"
+	"syscall"
 	"testing"
 	"time"
 
@@ -88,17 +91,12 @@ func TestConfirmCrash(t *testing.T) {
 	if !pbt.ShardOwns(1 % pbt.NShards()) {
 		t.Skip("runs on one shard")
 	}
+	confirmCrash(t)
+}
+
+func confirmCrash(t *testing.T) {
 	pbt.Case(t)
-	var env []string
-	for _, kv := range os.Environ() {
-		k := strings.SplitN(kv, "=", 2)[0]
-		switch k {
-		case "VERIF_STATS_DIR", "VERIF_FAIL_DIR", "VERIF_REPLAY", "VERIF_MERGE", "VERIF_SURVEY":
-			continue
-		}
-		env = append(env, kv)
-	}
-	env = append(env, "C11_CRASH_CHILD=1")
+	env := childEnv("C11_CRASH_CHILD=1")
 	ctx, cancel := context.WithTimeout(context.Background(), 5*time.Minute)
 	defer cancel()
 	cmd := exec.CommandContext(ctx, os.Args[0], "-test.run", "^TestCrashChild$", "-test.v")
@@ -149,6 +147,10 @@ func TestConfirmCompleteBeforeStatusFile(t *testing.T) {
 	if !pbt.ShardOwns(2 % pbt.NShards()) {
 		t.Skip("runs on one shard")
 	}
+	confirmWindow(t)
+}
+
+func confirmWindow(t *testing.T) {
 	g := loadGraph(t, gripx.FreshName()+"w", tinyGraph())
 	steps := []model.Step{model.S("V"), model.S("out")}
 	c := Case{G0: tinyGraph(), Ops: []Op{{Kind: "submit", Steps: steps}, {Kind: "restart"}, {Kind: "status", Job: 0}}}
@@ -157,7 +159,9 @@ func TestConfirmCompleteBeforeStatusFile(t *testing.T) {
 	attempts := pbt.Pick(300, 3000)
 	for i := 0; i < attempts; i++ {
 		pbt.Case(t)
-		jdir := filepath.Join(dir, "jobs")
+		// a fresh directory per attempt: NewFSJobStorage opens (and leaves open) the
+		// status file of every job below it
+		jdir := filepath.Join(dir, fmt.Sprintf("a%d", i), "jobs")
 		js := jobstorage.NewFSJobStorage(jdir)
 		q := model.Protos(steps)
 		pipe, err := g.gi.Compiler().Compile(q, nil)
@@ -195,5 +199,137 @@ func TestConfirmCompleteBeforeStatusFile(t *testing.T) {
 				"attempt %d: job %s was reported COMPLETE, a storage opened on the same directory right afterwards does not know it (%v); the status file was written only later", i, id, err)
 			return
 		}
+	}
+}
+
+// ---------------------------------------------------------------------------------
+// restart with many completed jobs
+
+const fdJobs = 1500
+
+// TestFdChild runs only in the subprocess started by TestConfirmManyJobsRestart: with
+// the customary soft limit of 1024 open files it completes one real job, copies its
+// directory fdJobs times under fresh ids (what fdJobs completed jobs leave on disk) and
+// opens a storage on the directory, as a restarted server does.
+func TestFdChild(t *testing.T) {
+	if os.Getenv("C11_FD_CHILD") == "" {
+		t.Skip("only as a child of TestConfirmManyJobsRestart")
+	}
+	var lim syscall.Rlimit
+	if err := syscall.Getrlimit(syscall.RLIMIT_NOFILE, &lim); err != nil {
+		t.Fatalf("INFRA: getrlimit: %v", err)
+	}
+	if lim.Cur > 1024 {
+		lim.Cur = 1024
+		if err := syscall.Setrlimit(syscall.RLIMIT_NOFILE, &lim); err != nil {
+			t.Fatalf("INFRA: setrlimit: %v", err)
+		}
+	}
+	dir := pbt.ScratchDir("c11-fd-")
+	defer os.RemoveAll(dir)
+	m := &machine{t: t, c: Case{}, dir: filepath.Join(dir, "jobs")}
+	m.js = jobstorage.NewFSJobStorage(m.dir)
+	m.g[0] = loadGraph(t, gripx.FreshName()+"f", tinyGraph())
+	m.g[1] = m.g[0]
+	m.submit(Op{Kind: "submit", Graph: 0, Steps: []model.Step{model.S("V"), model.S("as", "a")}})
+	if m.stop || m.jobs[0].state != jComplete {
+		t.Fatalf("INFRA: job not completed")
+	}
+	src := m.jobDir(m.jobs[0])
+	var sb []byte
+	for k := 0; k < 4000; k++ { // COMPLETE is published before the file is written
+		if sb, _ = os.ReadFile(filepath.Join(src, "status")); len(sb) > 0 && sb[len(sb)-1] == '\n' {
+			break
+		}
+		time.Sleep(50 * time.Microsecond)
+	}
+	job := jobstorage.Job{}
+	if err := json.Unmarshal(sb, &job); err != nil {
+		t.Fatalf("INFRA: status file: %v", err)
+	}
+	results, err := os.ReadFile(filepath.Join(src, "results"))
+	if err != nil {
+		t.Fatalf("INFRA: %v", err)
+	}
+	for i := 0; i < fdJobs; i++ {
+		id := fmt.Sprintf("job-9%08d", i)
+		d := filepath.Join(filepath.Dir(src), id)
+		job.Status.Id = id
+		b, err := json.Marshal(&job)
+		if err != nil {
+			t.Fatalf("INFRA: %v", err)
+		}
+		if err := os.MkdirAll(d, 0o700); err != nil {
+			t.Fatalf("INFRA: %v", err)
+		}
+		if err := os.WriteFile(filepath.Join(d, "status"), append(b, '\n'), 0o600); err != nil {
+			t.Fatalf("INFRA: %v", err)
+		}
+		if err := os.WriteFile(filepath.Join(d, "results"), results, 0o600); err != nil {
+			t.Fatalf("INFRA: %v", err)
+		}
+	}
+	js := jobstorage.NewFSJobStorage(m.dir)
+	ch, err := js.List(m.g[0].name)
+	if err != nil {
+		t.Fatalf("INFRA: %v", err)
+	}
+	n := 0
+	for range ch {
+		n++
+	}
+	fmt.Printf("FDCHILD listed=%d want=%d\n", n, fdJobs+1)
+}
+
+func childEnv(extra string) []string {
+	var env []string
+	for _, kv := range os.Environ() {
+		switch strings.SplitN(kv, "=", 2)[0] {
+		case "VERIF_STATS_DIR", "VERIF_FAIL_DIR", "VERIF_REPLAY", "VERIF_MERGE", "VERIF_SURVEY":
+			continue
+		}
+		env = append(env, kv)
+	}
+	return append(env, extra)
+}
+
+// TestConfirmManyJobsRestart: every completed job is still listed after a restart, also
+// when there are more of them than the process may hold open files.
+func TestConfirmManyJobsRestart(t *testing.T) {
+	if _, ok := pbt.ReplayFile(); ok {
+		t.Skip("replay mode")
+	}
+	if !pbt.ShardOwns(3 % pbt.NShards()) {
+		t.Skip("runs on one shard")
+	}
+	confirmManyJobs(t)
+}
+
+func confirmManyJobs(t *testing.T) {
+	pbt.Case(t)
+	ctx, cancel := context.WithTimeout(context.Background(), 5*time.Minute)
+	defer cancel()
+	cmd := exec.CommandContext(ctx, os.Args[0], "-test.run", "^TestFdChild$", "-test.v")
+	cmd.Env = childEnv("C11_FD_CHILD=1")
+	cmd.Dir = pbt.ScratchDir("c11-child-")
+	defer os.RemoveAll(cmd.Dir)
+	var buf bytes.Buffer
+	cmd.Stdout, cmd.Stderr = &buf, &buf
+	err := cmd.Run()
+	out := buf.String()
+	var listed, want int
+	if i := strings.Index(out, "FDCHILD listed="); i >= 0 {
+		fmt.Sscanf(out[i:], "FDCHILD listed=%d want=%d", &listed, &want)
+	}
+	switch {
+	case ctx.Err() != nil:
+		pbt.Inconclusive(t, "fd child did not finish")
+	case err != nil || want == 0:
+		t.Fatalf("INFRA: fd child failed: %v\n%s", err, clip(out, 3000))
+	case listed != want:
+		pbt.Nontrivial(t, "many-jobs")
+		c := map[string]interface{}{"jobs": want, "open_file_limit": 1024}
+		pbt.Discrepancy(t, c, "restart:jobs-lost:status-files-left-open",
+			"%d completed jobs on disk, open-file limit 1024: after a restart (NewFSJobStorage) only %d are listed", want, listed)
 	}
 }
